@@ -67,6 +67,11 @@ func TestPropDispatch(t *testing.T) {
 		d0 := b.DestCounts()
 		for i := 0; i < nl; i++ {
 			name := nameForModel(t, m)
+			if rapid.IntRange(0, 5).Draw(t, "leadingdot") == 0 {
+				// legal at every validation level; the validator's own view of the name drops this dot, the line keeps it,
+				// and every filter of the pipeline is defined on the name as the line carries it
+				name = "." + name
+			}
 			// the line as it may arrive: any whitespace layout the validator accepts (the name is what is left after splitting)
 			sep := func(label string) string {
 				return rapid.SampledFrom([]string{" ", " ", " ", " ", "\t", "  ", " \t", "\v"}).Draw(t, label)
